@@ -261,3 +261,149 @@ package protocol
 //@   ensures r != nil && wf(r)
 
 //@ property C09 min-obligations 100
+
+// ---------------------------------------------------------------------------------------------
+// C09 composite frames (lemma functions in zz_lemmas_verif.go). ethwf: addresses of 6 bytes; a tag is present
+// exactly when VID != 0 (the library's representation: a priority tag with VID 0 cannot be represented, see
+// known findings) and then carries TPID 0x8100 and in-lane PCP/DEI/VID.
+//@ spec ethwf(e *Ethernet) = len(e.HWDst) == 6 && len(e.HWSrc) == 6 && ((e.VLANID.VID != 0 && e.VLANID.TPID == 33024 && e.VLANID.PCP < 8 && e.VLANID.DEI < 2 && e.VLANID.VID < 4096) || (e.VLANID.VID == 0 && e.VLANID.TPID == 0 && e.VLANID.PCP == 0 && e.VLANID.DEI == 0))
+//@ spec ip4wf(i *IPv4) = i.Version < 16 && i.IHL >= 5 && i.IHL < 16 && i.DSCP < 64 && i.ECN < 4 && i.Flags < 8 && i.FragmentOffset < 8192 && blen(i.Options) == 4*int(i.IHL) - 20 && len(i.NWSrc) == 4 && len(i.NWDst) == 4
+//@ spec etheq(d *Ethernet, e *Ethernet) = d.Ethertype == e.Ethertype && d.VLANID.TPID == e.VLANID.TPID && d.VLANID.PCP == e.VLANID.PCP && d.VLANID.DEI == e.VLANID.DEI && d.VLANID.VID == e.VLANID.VID && len(d.HWDst) == 6 && bytes_eq(d.HWDst, 0, e.HWDst, 0, 6) && len(d.HWSrc) == 6 && bytes_eq(d.HWSrc, 0, e.HWSrc, 0, 6)
+//@ spec ip4eq(d *IPv4, i *IPv4) = d.Version == i.Version && d.IHL == i.IHL && d.DSCP == i.DSCP && d.ECN == i.ECN && d.Length == i.Length && d.Id == i.Id && d.Flags == i.Flags && d.FragmentOffset == i.FragmentOffset && d.TTL == i.TTL && d.Protocol == i.Protocol && d.Checksum == i.Checksum && len(d.NWSrc) == 4 && bytes_eq(d.NWSrc, 0, i.NWSrc, 0, 4) && len(d.NWDst) == 4 && bytes_eq(d.NWDst, 0, i.NWDst, 0, 4) && blen(d.Options) == blen(i.Options)
+
+//@ func lemmaEthIPv4UDP(e, ip, u) (d, err, b1, b2) [C09]
+//@   inlinecalls
+//@   modreach
+//@   modifies e.Data, ip.Data
+//@   requires e != nil && ip != nil && wf(u) && ethwf(e) && e.Ethertype == 2048 && ip4wf(ip) && ip.Protocol == 17 && 14 + 4 + 60 + 8 + len(u.Data) <= 65535
+//@   ensures err == nil && d != nil && typeis(d.Data, *IPv4) && typeis(d.Data.(*IPv4).Data, *UDP)
+//@   ensures err == nil ==> etheq(d, e) && ip4eq(d.Data.(*IPv4), ip)
+//@   ensures err == nil ==> d.Data.(*IPv4).Data.(*UDP).PortSrc == u.PortSrc && d.Data.(*IPv4).Data.(*UDP).PortDst == u.PortDst && d.Data.(*IPv4).Data.(*UDP).Length == u.Length && d.Data.(*IPv4).Data.(*UDP).Checksum == u.Checksum && len(d.Data.(*IPv4).Data.(*UDP).Data) == len(u.Data)
+//@   ensures err == nil ==> len(b2) == len(b1) && bytes_eq(b2, 0, b1, 0, len(b1))
+
+//@ func lemmaEthIPv4ICMP(e, ip, c) (d, err, b1, b2) [C09]
+//@   inlinecalls
+//@   modreach
+//@   modifies e.Data, ip.Data
+//@   requires e != nil && ip != nil && wf(c) && ethwf(e) && e.Ethertype == 2048 && ip4wf(ip) && ip.Protocol == 1 && 14 + 4 + 60 + 4 + len(c.Data) <= 65535
+//@   ensures err == nil && d != nil && typeis(d.Data, *IPv4) && typeis(d.Data.(*IPv4).Data, *ICMP)
+//@   ensures err == nil ==> etheq(d, e) && ip4eq(d.Data.(*IPv4), ip)
+//@   ensures err == nil ==> d.Data.(*IPv4).Data.(*ICMP).Type == c.Type && d.Data.(*IPv4).Data.(*ICMP).Code == c.Code && d.Data.(*IPv4).Data.(*ICMP).Checksum == c.Checksum && len(d.Data.(*IPv4).Data.(*ICMP).Data) == len(c.Data)
+//@   ensures err == nil ==> len(b2) == len(b1) && bytes_eq(b2, 0, b1, 0, len(b1))
+
+//@ func lemmaEthIPv4Other(e, ip, raw) (d, err, b1, b2) [C09]
+//@   inlinecalls
+//@   modreach
+//@   modifies e.Data, ip.Data
+//@   requires e != nil && ip != nil && wf(raw) && ethwf(e) && e.Ethertype == 2048 && ip4wf(ip) && ip.Protocol != 1 && ip.Protocol != 17 && 14 + 4 + 60 + blen(raw) <= 65535
+//@   ensures err == nil && d != nil && typeis(d.Data, *IPv4) && typeis(d.Data.(*IPv4).Data, *util.Buffer)
+//@   ensures err == nil ==> etheq(d, e) && ip4eq(d.Data.(*IPv4), ip)
+//@   ensures err == nil ==> len(b2) == len(b1) && bytes_eq(b2, 0, b1, 0, len(b1))
+
+//@ func lemmaEthARP(e, a) (d, err, b1, b2) [C09]
+//@   inlinecalls
+//@   modreach
+//@   modifies e.Data
+//@   requires e != nil && ethwf(e) && e.Ethertype == 2054 && wf(a) && a.ProtoLength == 4
+//@   ensures err == nil && d != nil && typeis(d.Data, *ARP)
+//@   ensures err == nil ==> etheq(d, e)
+//@   ensures err == nil ==> d.Data.(*ARP).HWType == a.HWType && d.Data.(*ARP).ProtoType == a.ProtoType && d.Data.(*ARP).HWLength == a.HWLength && d.Data.(*ARP).ProtoLength == a.ProtoLength && d.Data.(*ARP).Operation == a.Operation
+//@   ensures err == nil ==> len(b2) == len(b1) && bytes_eq(b2, 0, b1, 0, len(b1))
+
+//@ func lemmaEthOther(e, raw) (d, err, b1, b2) [C09]
+//@   inlinecalls
+//@   modreach
+//@   modifies e.Data
+//@   requires e != nil && wf(raw) && ethwf(e) && e.Ethertype != 2048 && e.Ethertype != 34525 && e.Ethertype != 2054 && e.Ethertype != 33024 && 14 + 4 + blen(raw) <= 65535
+//@   ensures err == nil && d != nil && typeis(d.Data, *util.Buffer)
+//@   ensures err == nil ==> etheq(d, e)
+//@   ensures err == nil ==> len(b2) == len(b1) && bytes_eq(b2, 0, b1, 0, len(b1))
+
+// IPv6 frames, one lemma per shape of the extension chain; the chain loops of encoder and decoder are unrolled and
+// the unwinding obligation proves the unrolling depth is enough.
+//@ spec ip6base(i *IPv6) = i.Version < 16 && i.FlowLabel < 1048576 && len(i.NWSrc) == 16 && len(i.NWDst) == 16
+//@ spec ip6eq(d *IPv6, i *IPv6) = d.Version == i.Version && d.TrafficClass == i.TrafficClass && d.FlowLabel == i.FlowLabel && d.Length == i.Length && d.NextHeader == i.NextHeader && d.HopLimit == i.HopLimit && len(d.NWSrc) == 16 && bytes_eq(d.NWSrc, 0, i.NWSrc, 0, 16) && len(d.NWDst) == 16 && bytes_eq(d.NWDst, 0, i.NWDst, 0, 16)
+//@ spec rheq(d *RoutingHeader, r *RoutingHeader) = d != nil && d.NextHeader == r.NextHeader && d.HEL == r.HEL && d.RoutingType == r.RoutingType && d.SegmentsLeft == r.SegmentsLeft && d.Data != nil && blen(d.Data) == blen(r.Data)
+//@ spec fheq(d *FragmentHeader, f *FragmentHeader) = d != nil && d.NextHeader == f.NextHeader && d.Reserved == f.Reserved && d.FragmentOffset == f.FragmentOffset && d.MoreFragments == f.MoreFragments && d.Identification == f.Identification
+//@ spec udpeq(d *UDP, u *UDP) = d.PortSrc == u.PortSrc && d.PortDst == u.PortDst && d.Length == u.Length && d.Checksum == u.Checksum && len(d.Data) == len(u.Data)
+
+//@ func lemmaEthIPv6UDP(e, ip, u) (d, err, b1, b2) [C09]
+//@   inlinecalls
+//@   modreach
+//@   unroll 2
+//@   modifies e.Data, ip.Data, ip.HbhHeader, ip.RoutingHeader, ip.FragmentHeader
+//@   requires e != nil && ip != nil && wf(u) && ethwf(e) && e.Ethertype == 34525 && ip6base(ip) && ip.NextHeader == 17 && 14 + 4 + 40 + 8 + len(u.Data) <= 65535
+//@   ensures err == nil && d != nil && typeis(d.Data, *IPv6) && typeis(d.Data.(*IPv6).Data, *UDP)
+//@   ensures err == nil ==> etheq(d, e) && ip6eq(d.Data.(*IPv6), ip) && d.Data.(*IPv6).HbhHeader == nil && d.Data.(*IPv6).RoutingHeader == nil && d.Data.(*IPv6).FragmentHeader == nil
+//@   ensures err == nil ==> udpeq(d.Data.(*IPv6).Data.(*UDP), u)
+//@   ensures err == nil ==> len(b2) == len(b1) && bytes_eq(b2, 0, b1, 0, len(b1))
+
+//@ func lemmaEthIPv6ICMP(e, ip, c) (d, err, b1, b2) [C09]
+//@   inlinecalls
+//@   modreach
+//@   unroll 2
+//@   modifies e.Data, ip.Data, ip.HbhHeader, ip.RoutingHeader, ip.FragmentHeader
+//@   requires e != nil && ip != nil && wf(c) && ethwf(e) && e.Ethertype == 34525 && ip6base(ip) && ip.NextHeader == 58 && 14 + 4 + 40 + 4 + len(c.Data) <= 65535
+//@   ensures err == nil && d != nil && typeis(d.Data, *IPv6) && typeis(d.Data.(*IPv6).Data, *ICMP)
+//@   ensures err == nil ==> etheq(d, e) && ip6eq(d.Data.(*IPv6), ip) && d.Data.(*IPv6).HbhHeader == nil && d.Data.(*IPv6).RoutingHeader == nil && d.Data.(*IPv6).FragmentHeader == nil
+//@   ensures err == nil ==> d.Data.(*IPv6).Data.(*ICMP).Type == c.Type && d.Data.(*IPv6).Data.(*ICMP).Code == c.Code && d.Data.(*IPv6).Data.(*ICMP).Checksum == c.Checksum && len(d.Data.(*IPv6).Data.(*ICMP).Data) == len(c.Data)
+//@   ensures err == nil ==> len(b2) == len(b1) && bytes_eq(b2, 0, b1, 0, len(b1))
+
+//@ func lemmaEthIPv6Other(e, ip, raw) (d, err, b1, b2) [C09]
+//@   inlinecalls
+//@   modreach
+//@   unroll 2
+//@   modifies e.Data, ip.Data, ip.HbhHeader, ip.RoutingHeader, ip.FragmentHeader
+//@   requires e != nil && ip != nil && wf(raw) && ethwf(e) && e.Ethertype == 34525 && ip6base(ip) && ip.NextHeader != 17 && ip.NextHeader != 58 && ip.NextHeader != 0 && ip.NextHeader != 43 && ip.NextHeader != 44 && 14 + 4 + 40 + blen(raw) <= 65535
+//@   ensures err == nil && d != nil && typeis(d.Data, *IPv6) && typeis(d.Data.(*IPv6).Data, *util.Buffer)
+//@   ensures err == nil ==> etheq(d, e) && ip6eq(d.Data.(*IPv6), ip) && d.Data.(*IPv6).HbhHeader == nil && d.Data.(*IPv6).RoutingHeader == nil && d.Data.(*IPv6).FragmentHeader == nil
+//@   ensures err == nil ==> len(b2) == len(b1) && bytes_eq(b2, 0, b1, 0, len(b1))
+
+//@ func lemmaEthIPv6R(e, ip, r, u) (d, err, b1, b2) [C09]
+//@   inlinecalls
+//@   modreach
+//@   unroll 3
+//@   modifies e.Data, ip.Data, ip.HbhHeader, ip.RoutingHeader, ip.FragmentHeader
+//@   requires e != nil && ip != nil && wf(u) && wf(r) && ethwf(e) && e.Ethertype == 34525 && ip6base(ip) && ip.NextHeader == 43 && r.NextHeader == 17 && 14 + 4 + 40 + 2048 + 8 + len(u.Data) <= 65535
+//@   ensures err == nil && d != nil && typeis(d.Data, *IPv6) && typeis(d.Data.(*IPv6).Data, *UDP)
+//@   ensures err == nil ==> etheq(d, e) && ip6eq(d.Data.(*IPv6), ip) && d.Data.(*IPv6).HbhHeader == nil && rheq(d.Data.(*IPv6).RoutingHeader, r) && d.Data.(*IPv6).FragmentHeader == nil
+//@   ensures err == nil ==> udpeq(d.Data.(*IPv6).Data.(*UDP), u)
+//@   ensures err == nil ==> len(b2) == len(b1) && len(b1) >= 54 + size(r) + 8
+//@   ensures err == nil ==> bytes_eq(b2, 0, b1, 0, 58)
+//@   ensures err == nil ==> bytes_eq(b2, 58, b1, 58, size(r) - 4)
+//@   ensures err == nil ==> bytes_eq(b2, 54 + size(r), b1, 54 + size(r), 8)
+//@   ensures err == nil ==> bytes_eq(b2, 62 + size(r), b1, 62 + size(r), len(b1) - 62 - size(r))
+
+//@ func lemmaEthIPv6F(e, ip, f, u) (d, err, b1, b2) [C09]
+//@   inlinecalls
+//@   modreach
+//@   unroll 3
+//@   modifies e.Data, ip.Data, ip.HbhHeader, ip.RoutingHeader, ip.FragmentHeader
+//@   requires e != nil && ip != nil && wf(u) && wf(f) && ethwf(e) && e.Ethertype == 34525 && ip6base(ip) && ip.NextHeader == 44 && f.NextHeader == 17 && 14 + 4 + 40 + 8 + 8 + len(u.Data) <= 65535
+//@   ensures err == nil && d != nil && typeis(d.Data, *IPv6) && typeis(d.Data.(*IPv6).Data, *UDP)
+//@   ensures err == nil ==> etheq(d, e) && ip6eq(d.Data.(*IPv6), ip) && d.Data.(*IPv6).HbhHeader == nil && d.Data.(*IPv6).RoutingHeader == nil && fheq(d.Data.(*IPv6).FragmentHeader, f)
+//@   ensures err == nil ==> udpeq(d.Data.(*IPv6).Data.(*UDP), u)
+//@   ensures err == nil ==> len(b2) == len(b1) && bytes_eq(b2, 0, b1, 0, len(b1))
+
+//@ func lemmaEthIPv6RF(e, ip, r, f, u) (d, err, b1, b2) [C09]
+//@   inlinecalls
+//@   modreach
+//@   unroll 4
+//@   modifies e.Data, ip.Data, ip.HbhHeader, ip.RoutingHeader, ip.FragmentHeader
+//@   requires e != nil && ip != nil && wf(u) && wf(r) && wf(f) && ethwf(e) && e.Ethertype == 34525 && ip6base(ip) && ip.NextHeader == 43 && r.NextHeader == 44 && f.NextHeader == 17 && 14 + 4 + 40 + 2048 + 8 + 8 + len(u.Data) <= 65535
+//@   ensures err == nil && d != nil && typeis(d.Data, *IPv6) && typeis(d.Data.(*IPv6).Data, *UDP)
+//@   ensures err == nil ==> etheq(d, e) && ip6eq(d.Data.(*IPv6), ip) && d.Data.(*IPv6).HbhHeader == nil && rheq(d.Data.(*IPv6).RoutingHeader, r) && fheq(d.Data.(*IPv6).FragmentHeader, f)
+//@   ensures err == nil ==> udpeq(d.Data.(*IPv6).Data.(*UDP), u)
+//@   ensures err == nil ==> len(b2) == len(b1) && bytes_eq(b2, 0, b1, 0, len(b1))
+
+//@ func lemmaEthIPv6H(e, ip, hel, o, u) (d, err, b1, b2) [C09]
+//@   inlinecalls
+//@   modreach
+//@   unroll 3
+//@   modifies e.Data, ip.Data, ip.HbhHeader, ip.RoutingHeader, ip.FragmentHeader
+//@   requires e != nil && ip != nil && wf(u) && wf(o) && ethwf(e) && e.Ethertype == 34525 && ip6base(ip) && ip.NextHeader == 0 && 2 + size(o) == 8*(int(hel) + 1) && 14 + 4 + 40 + 2048 + 8 + len(u.Data) <= 65535
+//@   ensures err == nil && d != nil && typeis(d.Data, *IPv6) && typeis(d.Data.(*IPv6).Data, *UDP)
+//@   ensures err == nil ==> etheq(d, e) && ip6eq(d.Data.(*IPv6), ip) && d.Data.(*IPv6).RoutingHeader == nil && d.Data.(*IPv6).FragmentHeader == nil
+//@   ensures err == nil ==> d.Data.(*IPv6).HbhHeader != nil && d.Data.(*IPv6).HbhHeader.NextHeader == 17 && d.Data.(*IPv6).HbhHeader.HEL == hel && len(d.Data.(*IPv6).HbhHeader.Options) == 1 && d.Data.(*IPv6).HbhHeader.Options[0].Type == o.Type && d.Data.(*IPv6).HbhHeader.Options[0].Length == o.Length
+//@   ensures err == nil ==> udpeq(d.Data.(*IPv6).Data.(*UDP), u)
+//@   ensures err == nil ==> len(b2) == len(b1) && bytes_eq(b2, 0, b1, 0, len(b1))
